@@ -11,7 +11,9 @@ from .. import common, checklib
 LEVEL = "exploration"
 
 FORMULAS = ["y ~ x + f", "y ~ scale(x) + (x|g)", "y ~ poly(x, 2) + (1|g) + (1|h)", "y ~ center(x):f + (0 + f|g)",
-            "y ~ bs(x, df=4) + z", "y ~ x + (x|g) + (1|h)", "y ~ x", "y ~ poly(x, 2) + poly(z, 3)"]
+            "y ~ bs(x, df=4) + z", "y ~ x + (x|g) + (1|h)", "y ~ x", "y ~ poly(x, 2) + poly(z, 3)",
+            # s is symmetric around 0 in the training frames: a stored parameter that is exactly 0.0
+            "y ~ poly(s, 2) + x", "y ~ center(s) + poly(s, 3)"]
 MODES = ["error", "warning", "silent"]
 
 
@@ -22,6 +24,9 @@ def frames():
                       "f": list("abc" * 7)[:n], "g": list("uvw" * 7)[:n], "h": list("pq" * 10)[:n]})
     b = pd.DataFrame({"y": rng.normal(size=n), "x": rng.normal(size=n) * 7 - 3, "z": rng.uniform(10, 40, size=n),
                       "f": list("cab" * 7)[:n], "g": list("wvu" * 7)[:n], "h": list("qp" * 10)[:n]})
+    half = np.arange(n // 2) + 0.5
+    a["s"] = np.concatenate([half, -half])
+    b["s"] = np.concatenate([-2 * half, 2 * half])[::-1]
     b.loc[3, "z"] = np.nan
     b.index = [f"r{i}" for i in range(n)]
     c = pd.DataFrame({"y": rng.normal(size=12), "x": rng.normal(size=12)})
@@ -225,9 +230,12 @@ def needed_refs(seq):
 
 
 def PROOFS():
-    from ..contracts import call_resolver_c, transforms_c, variable_c, config_c
+    from ..contracts import call_resolver_c, transforms_c, variable_c, config_c, matrices_c   # noqa: F401
     T = "formulae.transforms."
     return [("vf.contracts.call_resolver_c", ["formulae.terms.call_resolver.LazyCall.eval"]),
+            # evaluating new data leaves the training object untouched and returns a fresh object (frame obligations)
+            ("vf.contracts.matrices_c", ["formulae.matrices.CommonEffectsMatrix.evaluate_new_data", "formulae.matrices.GroupEffectsMatrix.evaluate_new_data",
+                                         "formulae.matrices.CommonEffectsMatrix.evaluate", "formulae.matrices.GroupEffectsMatrix.evaluate"]),
             ("vf.contracts.transforms_c", [T + "Center.__call__", T + "Scale.__call__", T + "BSpline.__call__", T + "Polynomial.__init__"]),
             ("vf.contracts.variable_c", [f for f in variable_c.FUNCTIONS if f.endswith("eval_new_data_categoric")]), ("vf.contracts.config_c", config_c.FUNCTIONS),
             ("vf.contracts.design_c", ["formulae.matrices.design_matrices"])]
